@@ -915,7 +915,7 @@ Proof.
   change (get_tag T_PossDupFlag [(T_PossDupFlag, V_Y); (T_OrigSendingTime, r_time r)]) with (Some V_Y).
   cbv iota beta. change (str_eqb V_Y V_Y) with true. cbv iota beta.
   unfold persist. cbn [r_seq rows]. unfold has_key in *. rewrite Hk.
-  eexists. split; [|reflexivity]. reflexivity.
+  eexists (mkRow (r_seq r) _ _ _). split; reflexivity.
 Qed.
 
 Lemma loop_exceptions f : forall rs p gfb gfe s,
